@@ -436,6 +436,191 @@ theorem vars_reloc {k n : Nat} : ∀ m,
         simp only [operandVars]
         exact ih.1 a b (by omega) hab
 
+/-- related lists: every related pair of variable operands occurs in the two lists -/
+theorem rel_mem {Pv : VarRef → VarRef → Prop} {k n : Nat} : ∀ m,
+    (∀ (a b : List (Item R)) (Q : VarRef → VarRef → Prop), Qentem.Expr.sizeItems a ≤ m →
+      Qentem.Expr.RelItems Pv k n a b →
+      (∀ v v', Pv v v' → v ∈ itemsVars a → v' ∈ itemsVars b → Q v v') → Qentem.Expr.RelItems Q k n a b) ∧
+    (∀ (x y : Qentem.Expr.Operand R) (Q : VarRef → VarRef → Prop), x.size ≤ m →
+      Qentem.Expr.RelOperand Pv k n x y →
+      (∀ v v', Pv v v' → v ∈ operandVars x → v' ∈ operandVars y → Q v v') → Qentem.Expr.RelOperand Q k n x y) := by
+  intro m
+  induction m with
+  | zero =>
+    refine ⟨?_, ?_⟩
+    · intro a b Q hs hab hq
+      cases hab with
+      | nil => exact .nil
+      | cons x y o a b _ _ => simp [Qentem.Expr.sizeItems] at hs
+    · intro x y Q hs hxy hq
+      cases hxy with
+      | num z => exact .num z
+      | text o l h => exact .text o l h
+      | var v v' h => exact .var v v' (hq v v' h (by simp [operandVars]) (by simp [operandVars]))
+      | sub a b _ => simp [Qentem.Expr.Operand.size] at hs
+  | succ m ih =>
+    refine ⟨?_, ?_⟩
+    · intro a b Q hs hab hq
+      cases hab with
+      | nil => exact .nil
+      | cons x y o a b hxy hab =>
+        simp only [Qentem.Expr.sizeItems] at hs
+        refine .cons _ _ _ _ _ (ih.2 x y Q (by omega) hxy ?_) (ih.1 a b Q (by omega) hab ?_)
+        · intro v v' h h1 h2
+          exact hq v v' h (by simp only [itemsVars]; exact List.mem_append_left _ h1)
+            (by simp only [itemsVars]; exact List.mem_append_left _ h2)
+        · intro v v' h h1 h2
+          exact hq v v' h (by simp only [itemsVars]; exact List.mem_append_right _ h1)
+            (by simp only [itemsVars]; exact List.mem_append_right _ h2)
+    · intro x y Q hs hxy hq
+      cases hxy with
+      | num z => exact .num z
+      | text o l h => exact .text o l h
+      | var v v' h => exact .var v v' (hq v v' h (by simp [operandVars]) (by simp [operandVars]))
+      | sub a b hab =>
+        simp only [Qentem.Expr.Operand.size] at hs
+        exact .sub _ _ (ih.1 a b Q (by omega) hab (fun v v' h h1 h2 =>
+          hq v v' h (by simpa only [operandVars] using h1) (by simpa only [operandVars] using h2)))
+
+theorem resolveVars_ok (cx : RCtx R) (st : RState) (g : VarRef → Option Doc) :
+    ∀ (vs : List VarRef), (∀ v ∈ vs, getValue cx st v = .ok (g v)) →
+      resolveVars cx st vs = .ok (vs.map (fun v => (v, (g v).map (docToVarVal cx)))) := by
+  intro vs
+  induction vs with
+  | nil => intro _; rfl
+  | cons v rest ih =>
+    intro h
+    simp only [resolveVars, h v (List.mem_cons_self), bind, Except.bind,
+      ih (fun w hw => h w (List.mem_cons_of_mem _ hw)), List.map_cons]
+
+theorem find_resolved (f : VarRef → Option (Qentem.Expr.VarVal R)) : ∀ (vs : List VarRef) (v : VarRef), v ∈ vs →
+    ((vs.map (fun w => (w, f w))).find? (fun p => p.1 == v)).bind (·.2) = f v := by
+  intro vs
+  induction vs with
+  | nil => intro v hv; cases hv
+  | cons w rest ih =>
+    intro v hv
+    simp only [List.map_cons, List.find?_cons]
+    by_cases hwv : w = v
+    · subst hwv; simp
+    · have : (w == v) = false := by simpa using hwv
+      simp only [this]
+      rcases List.mem_cons.mp hv with h | h
+      · exact absurd h.symm hwv
+      · exact ih v h
+
+theorem docToVarVal_eq (cx : RCtx R) (d : Doc) : docToVarVal cx d = docVarVal (specOf cx) d := by
+  cases d <;> rfl
+
+theorem rel_vars_back {Pv : VarRef → VarRef → Prop} {k n : Nat} : ∀ m,
+    (∀ (a b : List (Item R)), Qentem.Expr.sizeItems a ≤ m → Qentem.Expr.RelItems Pv k n a b →
+      ∀ v' ∈ itemsVars b, ∃ v, v ∈ itemsVars a ∧ Pv v v') ∧
+    (∀ (x y : Qentem.Expr.Operand R), x.size ≤ m → Qentem.Expr.RelOperand Pv k n x y →
+      ∀ v' ∈ operandVars y, ∃ v, v ∈ operandVars x ∧ Pv v v') := by
+  intro m
+  induction m with
+  | zero =>
+    refine ⟨?_, ?_⟩
+    · intro a b hs hab
+      cases hab with
+      | nil => intro v' hv'; simp [itemsVars] at hv'
+      | cons x y o a b _ _ => simp [Qentem.Expr.sizeItems] at hs
+    · intro x y hs hxy
+      cases hxy with
+      | num z => intro v' hv'; simp [operandVars] at hv'
+      | text o l h => intro v' hv'; simp [operandVars] at hv'
+      | var v w h =>
+        intro v' hv'
+        simp only [operandVars, List.mem_singleton] at hv'
+        subst hv'
+        exact ⟨v, by simp [operandVars], h⟩
+      | sub a b _ => simp [Qentem.Expr.Operand.size] at hs
+  | succ m ih =>
+    refine ⟨?_, ?_⟩
+    · intro a b hs hab
+      cases hab with
+      | nil => intro v' hv'; simp [itemsVars] at hv'
+      | cons x y o a b hxy hab =>
+        simp only [Qentem.Expr.sizeItems] at hs
+        intro v' hv'
+        simp only [itemsVars, List.mem_append] at hv' ⊢
+        rcases hv' with h | h
+        · obtain ⟨v, h1, h2⟩ := ih.2 x y (by omega) hxy v' h
+          exact ⟨v, Or.inl h1, h2⟩
+        · obtain ⟨v, h1, h2⟩ := ih.1 a b (by omega) hab v' h
+          exact ⟨v, Or.inr h1, h2⟩
+    · intro x y hs hxy
+      cases hxy with
+      | num z => intro v' hv'; simp [operandVars] at hv'
+      | text o l h => intro v' hv'; simp [operandVars] at hv'
+      | var v w h =>
+        intro v' hv'
+        simp only [operandVars, List.mem_singleton] at hv'
+        subst hv'
+        exact ⟨v, by simp [operandVars], h⟩
+      | sub a b hab =>
+        simp only [Qentem.Expr.Operand.size] at hs
+        intro v' hv'
+        simp only [operandVars] at hv' ⊢
+        exact ih.1 a b (by omega) hab v' hv'
+
+/-- a `{var:…}` operand of an expression text scanned alone and its copy `k` units into the content,
+outside every loop -/
+def PvTop (k n : Nat) (v v' : VarRef) : Prop := v' = ⟨k + v.off, v.len, 0, 0⟩ ∧ v.off + v.len < n
+
+/-- the code's evaluation of a list scanned in place equals the evaluation of the list scanned
+alone in the reference environment, when the paths of its `{var:}` operands have the documented
+shape -/
+theorem evalExprs_reloc (cx : RCtx R) (hg : cx.guardIndexRead = true) (st : RState) (envS : Env R) (k : Nat)
+    (items0 items' : List (Item R))
+    (hre : ∀ lk, Qentem.Expr.RelEnv envS ({ content := cx.content, lookup := lk, readNum := cx.readNum } : Env R) k)
+    (hlookS : ∀ v, envS.lookup v =
+      ((resolve cx.root [] ((envS.content.drop v.off).take v.len)).1).map (docVarVal (specOf cx)))
+    (hrel : Qentem.Expr.RelItems (PvTop k envS.content.length) k envS.content.length items0 items')
+    (hpath : ∀ v ∈ itemsVars items0, PathOk ((envS.content.drop v.off).take v.len))
+    (hlen : k + envS.content.length ≤ cx.content.length) (hne : items'.isEmpty = false) :
+    evalExprs cx st items' = .ok (Qentem.Expr.evaluateTop envS true items0) ∧
+      (∀ v, Qentem.Expr.evaluateTop envS true items0 = some v → ∃ x, v = .num x) := by
+  let g : VarRef → Option Doc := fun v' => (resolve cx.root [] ((cx.content.drop v'.off).take v'.len)).1
+  have hsl : ∀ v : VarRef, v.off + v.len < envS.content.length →
+      (cx.content.drop (k + v.off)).take v.len = (envS.content.drop v.off).take v.len :=
+    fun v hb => (hre (fun _ => none)).slice v.off v.len (by omega)
+  have hget : ∀ v' ∈ itemsVars items', getValue cx st v' = .ok (g v') := by
+    intro v' hv'
+    obtain ⟨v, hv, hpv, hb⟩ := (rel_vars_back _).1 items0 items' (Nat.le_refl _) hrel v' hv'
+    subst hpv
+    have hp := hpath v hv
+    have hs := hsl v hb
+    have hlp : ((envS.content.drop v.off).take v.len).length = v.len := by
+      simp only [List.length_take, List.length_drop]; omega
+    have hc' : cx.content = cx.content.take (k + v.off) ++
+        ((envS.content.drop v.off).take v.len ++ (cx.content.drop (k + v.off)).drop v.len) := by
+      rw [← hs, List.take_append_drop, List.take_append_drop]
+    have hla : (cx.content.take (k + v.off)).length = k + v.off := by
+      simp only [List.length_take]; omega
+    have := getValue_path cx hg st _ _ _ hc' hp
+    rw [hla, hlp] at this
+    rw [this]
+    simp only [g, hs]
+  let f : VarRef → Option (Qentem.Expr.VarVal R) := fun v => (g v).map (docToVarVal cx)
+  have hres := resolveVars_ok cx st g (itemsVars items') hget
+  let env' : Env R := ⟨cx.content,
+    fun v => (((itemsVars items').map (fun w => (w, f w))).find? (fun p => p.1 == v)).bind (·.2), cx.readNum⟩
+  have hrel2 := (rel_mem _).1 items0 items'
+    (fun v v' => PvTop k envS.content.length v v' ∧ v' ∈ itemsVars items') (Nat.le_refl _) hrel
+    (fun v v' h _ h2 => ⟨h, h2⟩)
+  have hlk : Qentem.Expr.RelLookup (fun v v' => PvTop k envS.content.length v v' ∧ v' ∈ itemsVars items') envS env' := by
+    intro v v' ⟨⟨hpv, hb⟩, hm⟩
+    show (((itemsVars items').map (fun w => (w, f w))).find? (fun p => p.1 == v')).bind (·.2) = envS.lookup v
+    rw [find_resolved f _ v' hm, hlookS v]
+    subst hpv
+    simp only [f, g, hsl v hb]
+    congr 1
+  have hev := Qentem.Expr.evaluateTop_reloc (hre env'.lookup) hlk true items0 items' hrel2
+  refine ⟨?_, hev.2⟩
+  simp only [evalExprs, hne, Bool.false_eq_true, if_false, hres, bind, Except.bind]
+  exact congrArg Except.ok hev.1
+
 /-- the text of a `{math:e}` tag inside the content, as a relocation of `e}` -/
 theorem reloc_math (c pre e post : List Nat)
     (hc : c = pre ++ (([123, 109, 97, 116, 104, 58] ++ e ++ [125]) ++ post)) :
